@@ -271,3 +271,43 @@ Example C01_slots_recursion_nonvacuous :
   Sem.run_program 60 SlotSem.ex_recursion =
     ([Values.OInt 120; Values.OTuple [Values.OInt 6; Values.OInt 33]], Sem.Failed Values.Unbound (Some 11)).
 Proof. vm_compute. repeat split. Qed.
+
+(* ---- index and slice-bound normalisation as translated from /repo's sources on this run ----------
+   (tools/rs2v.py -> Extracted/RsIndex.v, RsConv.v).  The reference semantics slices through
+   Core.Slice.convert_slice_indices; these theorems say values/index.rs computes exactly that. *)
+From SV Require Rs.Prelude Rs.Proofs Extracted.RsIndex Extracted.RsConv.
+
+Theorem C01_source_slice_indices : forall len s e st,
+  SV.Rs.Proofs.wfv s -> SV.Rs.Proofs.wfv e -> SV.Rs.Proofs.wfv st ->
+  SV.Extracted.RsIndex.rs_convert_slice_indices len s e st =
+  SV.Rs.Proofs.slice_res len (SV.Rs.Proofs.bnd s) (SV.Rs.Proofs.bnd e) (SV.Rs.Proofs.bnd st).
+Proof. exact SV.Rs.Proofs.rs_convert_slice_indices_eq. Qed.
+
+(* clamping a bound to i32 first (unpack_slice_bound) is invisible for a sequence whose length fits i32 *)
+Theorem C01_source_clamp_invisible : forall len x d mn mx,
+  0 <= len <= SV.Rs.Prelude.i32_MAX -> -1 <= mn <= mx -> mx <= len ->
+  SV.Core.Slice.convert_index_aux len (Some (SV.Rs.Proofs.clamp32 x)) d mn mx =
+  SV.Core.Slice.convert_index_aux len (Some x) d mn mx.
+Proof. exact SV.Rs.Proofs.convert_index_aux_clamp. Qed.
+
+Theorem C01_source_convert_index : forall x len,
+  0 <= len <= SV.Rs.Prelude.i32_MAX -> SV.Int.Model.wf (SV.Int.Model.Small x) ->
+  SV.Rs.Prelude.m_ok (SV.Extracted.RsIndex.rs_convert_index (SV.Rs.Prelude.VInt (SV.Int.Model.Small x)) len) =
+  SV.Core.Slice.convert_index x len.
+Proof. exact SV.Rs.Proofs.rs_convert_index_eq. Qed.
+
+(* the start/end window of str.find/index/count/startswith/endswith (convert_indices.rs) *)
+Theorem C01_source_str_window_indices : forall len s e,
+  0 <= len <= SV.Rs.Prelude.i32_MAX ->
+  match s with Some x => SV.Rs.Prelude.i32_MIN <= x <= SV.Rs.Prelude.i32_MAX | None => True end ->
+  match e with Some x => SV.Rs.Prelude.i32_MIN <= x <= SV.Rs.Prelude.i32_MAX | None => True end ->
+  let norm := fun (o : option Z) d => let x := match o with Some x => x | None => d end in if x <? 0 then x + len else x in
+  SV.Extracted.RsConv.rs_convert_indices len s e =
+  (SV.Rs.Proofs.bound_spec (norm s 0) len, SV.Rs.Proofs.bound_spec (norm e len) len).
+Proof. exact SV.Rs.Proofs.rs_convert_indices_spec. Qed.
+
+Example C01_source_nonvacuous :
+  SV.Extracted.RsIndex.rs_convert_slice_indices 5 (Some (SV.Rs.Prelude.VInt (SV.Int.Model.Big (- 2 ^ 40)))) None
+    (Some (SV.Rs.Prelude.VInt (SV.Int.Model.Small (-1)))) = SV.Rs.Prelude.ROk (-1, -1, -1) /\
+  SV.Extracted.RsConv.rs_convert_indices 3 (Some (-5)) (Some (-100)) = (0, 0).
+Proof. split; vm_compute; reflexivity. Qed.
